@@ -11,7 +11,11 @@ resolved, arguments bound to the callee's parameters) and decide on the CFG:
 * R4  the client builds its requests with the transform, keys and framing the decoder undoes; generator ordering;
 * R8  the router is complete: a request that has the verb and the URI prefix of a route is given that route's transform
       whatever the tests on the other route's verb / URI say (Malleable C2 `set verb` may make the two verbs the same
-      string), and a response is given the response transform - the converse of R1.
+      string), and a response is given the response transform - the converse of R1;
+* R11 recover's `append` / `prepend` steps take the literal off by position: no method whose result depends on the byte
+      values of the (arbitrary) payload - strip family, first/last-occurrence cuts, replace - decides how much is removed;
+* R12 the decoder keeps sufficient key material sufficient: after a fresh RSA decryption of the metadata the session keys
+      are derived and stored whenever *either* default key is missing, in the order (aes_key, hmac_key), from aes_rand.
 
 A subject that cannot be located is reported as undecided, a located subject that does not satisfy the condition as
 violated.
@@ -85,6 +89,27 @@ assumption* (`_tv` / `_spec`); the only iteration is the fixpoint of `_resolve` 
       sep and every other element is a piece between two separators; `s[:s.find(sep)]` / `s[s.find(sep) + len(sep):]`
       are the first-separator cuts, with rfind/rindex the last-separator cuts.  A located cut of another class than the
       required one is a violation, any other expression undecided.  No string is ever split by the checker.
+* R11 5 (one case per step name `append` / `prepend` of the step vocabulary: the loop body of recover is walked path-wise
+      once with the step name replaced by that literal - the path walker `_Side` of rules.c04, its technique is stated
+      there; payload, step argument and all loop-carried locals stay symbols); 3 (the final symbolic term of the payload
+      accumulator on every normally completing path); 1 (which methods of the finite set strip/lstrip/rstrip,
+      removeprefix/removesuffix, partition/rpartition/split/rsplit, replace, find/index/... are applied to a sub-term that
+      contains the accumulator symbol, and with which argument / constant index).  Lemmas (documented result shapes of the
+      bytes methods, `_affix_cuts`): strip-set - x.rstrip(s) / lstrip / strip remove every leading / trailing byte that
+      OCCURS IN s, a set of byte values; affix - (p + s).removesuffix(s) == p, (s + p).removeprefix(s) == p; occurrence - in
+      p + s the last occurrence of a non-empty s is the appended one, in s + p the first is the prepended one, any other
+      occurrence may lie inside p.  The payload p is an arbitrary byte string and the literal s a free non-empty string of
+      the profile, so a located strip-family call / wrong-occurrence cut / replace is a violation, a search method without
+      a lemma (find, index, translate ...) undecided.  No byte string is ever stripped or split by the checker.
+* R12 5 (case analysis over the code's own two boolean flags "default aes_key present / missing", "default hmac_key
+      present / missing": the three assignments with at least one key missing - each is a state the constructor accepts
+      together with an RSA private key); 2 (CFG of the decoder generator specialised under that named assumption with
+      `_spec`; reachability from the statement of the decrypt_metadata(..) call to every yield and to the exit *avoiding*
+      the stores of self.beacon_keys; stores located with `_self_writes`); 3 (def-use of the stored BeaconKeys(..) fields
+      down to element i of derive_aes_hmac_keys(<metadata>.aes_rand) / BeaconKeys.from_aes_rand(..), reaching definitions
+      of <metadata> = the decrypt_metadata call).  Lemma: a validated key is None or 16 bytes (R3), so "missing" decides
+      `k` false, `k is None` true, `None in (k, ..)` true and "present" the opposite; any other test that mentions the keys
+      and lies between the decryption and the leak makes the obligation undecided, never violated.
 * R6  obligations of `rules.c04.run`, R7 obligations of `rules.c19.r5`, imported unchanged - their technique is stated
       in (and audited with) those modules.
 """
@@ -452,13 +477,18 @@ def run(ctx):
         "prefix of a route reaches that route's transform whatever the other route's verb/URI tests say - the verbs may be "
         "equal - and a response reaches the response transform); the flow of every field of the request the client's transform "
         "returned (method, uri, params, headers, body) into the call that sends it; the cuts parse_raw_http makes (body = everything "
-        "after the first blank line, header name / value = the text before / everything after the first `: ` of the line). "
+        "after the first blank line, header name / value = the text before / everything after the first `: ` of the line); "
+        "recover's append / prepend steps remove the literal by position (no strip-set / wrong-occurrence / replace cut on the arbitrary "
+        "payload); the decoder derives and stores the session keys from freshly decrypted metadata whenever either default key is "
+        "missing (private key plus only one of the two keys is sufficient key material). "
         "Whole-session histories are not decided."
     )
     rep.not_decided = ["whole-session decoding over all interleavings", "metadata_cache / beacon_keys evolution over time", "packet contents",
                        "which transform is chosen for a request that matches both request routes (same verb, one URI a prefix of the other)",
                        "what the HTTP client library emits for the arguments it is given (header order, encoding of the query) and how the peer captures it",
-                       "the splitting of the header block into lines and of the start line into its three parts"]
+                       "the splitting of the header block into lines and of the start line into its three parts",
+                       "how many bytes recover's append / prepend slices remove (C04.R5, imported as R6, judges the slice bounds; R11 only excludes content-dependent cuts)",
+                       "`keys = keys or self.beacon_keys` is evaluated before the derivation: packets in the very message that carries the metadata use the old keys"]
     rep.trusted_base = [
         "CPython ast", "networkx dominators",
         "named assumptions of R3 (key material truthy/falsy; key not None with len != 16) decide only `x`, `x is (not) None` and `len(x) ==/!= 16` tests - a truthy value is not None",
@@ -474,6 +504,12 @@ def run(ctx):
         "everything after the FIRST sep, rpartition/rsplit(sep, 1) cut at the LAST sep, element i >= 1 of an unlimited split is a piece between two separators",
         "R10: a header name contains no `: ` and the message head no blank line (HTTP framing), so the first separator is the framing one; "
         "header values and the body are payload and may contain the separator",
+        "R11: the per-step path walker of rules.c04 (`_Side`: step name specialised per literal, everything else symbolic) and the lemmas strip-set "
+        "(bytes.strip/lstrip/rstrip(s) treat s as a set of byte values), affix (removeprefix/removesuffix take exactly the affix off) and occurrence "
+        "(in p + s the last occurrence of s is the appended one, in s + p the first the prepended one); the payload ranges over all byte strings, "
+        "the literal over all non-empty profile strings",
+        "named assumptions of R12 (default aes_key / hmac_key present or missing, at least one missing) decide only `self.beacon_keys.<k>`, `<k> is/== None` and "
+        "`None in (<k>, ..)` tests; a validated key is None or 16 bytes (R3), and the constructor accepts an RSA private key with any subset of the two keys",
         "R6/R7 are the obligations of rules.c04 / rules.c19.r5 (their trusted base applies)",
     ]
     r1(ctx)
@@ -2089,6 +2125,7 @@ def r12(ctx):
 
     # ---- what is stored
     problems, unknown, good = [], [], []
+    stores = _stores(ir.node)
     for st in plain:
         v = _inl(ir, st.value)
         fq = _fq(ctx, ir, v) if isinstance(v, ast.Call) else None
@@ -2100,6 +2137,9 @@ def r12(ctx):
                 continue
             for i, fld in enumerate(_SESSION_KEYS):
                 x = _inl(ir, b[fld]) if b.get(fld) is not None else None
+                if isinstance(x, ast.Name) and len(stores.get(x.id, [])) == 1 and stores[x.id][0][1] is not None:
+                    x = stores[x.id][0][1]  # the only binding of the local: element i of an unpacked value is `<value>[i]`
+                    x = ast.Subscript(value=_inl(ir, x.value), slice=x.slice, ctx=ast.Load()) if isinstance(x, ast.Subscript) else _inl(ir, x)
                 if x is None or is_none(x):
                     problems.append(f"{fld} is not set by {src(v)[:60]}")
                 elif isinstance(x, ast.Subscript) and isinstance(_c(x.slice), int) and _fq(ctx, ir, x.value) == "c2.derive_aes_hmac_keys":
